@@ -148,6 +148,50 @@ pub fn generate_c02(tier: &str, seed: u64, out: &mut Out) {
             out.req("total", &[e.to_string(), es(&t)]);
         }
     }
+    // (b2) realistic values of the value-shaped entry points, with the white-space variants a field
+    //      accessor or a hand-written file can deliver (leading / trailing / doubled blanks, tabs,
+    //      a line break at either end)
+    let vals = [
+        "https://salsa.debian.org/foo/bar.git [debian]",
+        "https://x/y.git -b main [sub]",
+        "https://x/y.git -b main",
+        "d41d8cd98f00b204e9800998ecf8427e 0 net optional a_1.0-1.dsc",
+        "da39a3ee5e6b4b0d3255bfef95601890afd80709 12 a_1.0-1.dsc",
+        "A B <a@b.c>",
+        "a deb net optional arch=any profile=!stage1",
+        "!nocheck",
+        ">=",
+        "upstream, commit:abc",
+        "not-needed",
+        "commit:abc",
+        "/usr/share/keyrings/x.gpg",
+        "\n-----BEGIN PGP PUBLIC KEY BLOCK-----\n.\nmQ==\n-----END PGP PUBLIC KEY BLOCK-----",
+        "GPL-2+\n text",
+        "deb-src",
+        "force",
+        "optional",
+        "same",
+        "medium",
+        "a (>= 1:2~) [!amd64] <!x> | b:any",
+    ];
+    for v in vals.iter() {
+        let variants = [
+            v.to_string(),
+            format!(" {}", v),
+            format!("{} ", v),
+            format!("  {}  ", v),
+            format!("\t{}", v),
+            format!("{}\n", v),
+            format!("\n{}", v),
+            v.replace(' ', "  "),
+            v.replace(' ', "\t"),
+        ];
+        for t in variants.iter() {
+            for e in &small {
+                out.req("total", &[e.to_string(), es(t)]);
+            }
+        }
+    }
     // (c) relation strings routed through the composite document readers
     let rels = strings_upto(&REL_ALPHABET, 2);
     for r in &rels {
